@@ -10,7 +10,7 @@ import StraxModel.Model.FS
   chunks   `-` or `/`-separated `start;stop;rows`            (rows as everywhere: `t:e:id,…` or `-`)
   attempt  `variant|recheck|rmorder|fault|extraStart|extraChunks|abandoned|lostClose|show`
            lostClose 1 = threaded processor as it is (an exception of the final close is not reported, D14)
-           variant ser|exe|frk, recheck 1 (fixed protocol) | 0 (old protocol, D3), rmorder li|mf|ml,
+           variant ser|exe|frk, protocol 1 (current) | 0 (before the D3 fix) | 2 (before the D12 fix), rmorder li|mf|ml,
            fault `none` | `exc@k` | `db@k` | `da@k` (k-th FS operation of the attempt) | `ab@k` (exception thrown in after k ops)
   report   `<result> find=<ok|err Kind> load=<ok chunks|err Kind> d12=<0|1> ops=<op,op,…>`
 -/
@@ -30,6 +30,10 @@ def c04Chunks (s : String) : Option (List Chunk) :=
 
 def c04Variant : String → Option Variant
   | "ser" => some .serial | "exe" => some .executor | "frk" => some .forked | _ => none
+
+/-- `1` current protocol, `0` before the D3 fix (futures unchecked), `2` before the D12 fix (broken data deleted in place) -/
+def c04Proto : String → Option Proto
+  | "1" => some {} | "0" => some { recheck := false } | "2" => some { atomicRemove := false } | _ => none
 
 def c04RmOrder : String → Option RmOrder
   | "li" => some .sorted | "mf" => some .metaFirst | "ml" => some .metaLast | _ => none
@@ -89,7 +93,7 @@ def showLoad (r : Except Err (List Chunk)) : String :=
 
 structure C04Attempt where
   v : Variant
-  recheck : Bool
+  proto : Proto
   order : RmOrder
   fault : Option Fault
   extraStart : Nat
@@ -101,7 +105,7 @@ structure C04Attempt where
 def c04Attempt (s : String) : Option C04Attempt :=
   match s.splitOn "|" with
   | [v, r, o, f, es, ex, ab, lc, sh] => do
-    pure ⟨← c04Variant v, ← parseBool r, ← c04RmOrder o, ← c04Fault f, ← es.toNat?, ← c04Chunks ex, ← parseBool ab,
+    pure ⟨← c04Variant v, ← c04Proto r, ← c04RmOrder o, ← c04Fault f, ← es.toNat?, ← c04Chunks ex, ← parseBool ab,
           ← parseBool lc, sh⟩
   | _ => none
 
@@ -115,7 +119,7 @@ def showDir : Option Dir → String
     "[" ++ ",".intercalate (ns.map showName) ++ "]"
 
 def c04Report (fs : FS) (cs : List Chunk) (a : C04Attempt) : FS × String :=
-  let (rr, res) := attempt fs a.v a.recheck cs ⟨a.v, a.extra, a.extraStart, a.abandoned, a.lostClose⟩ a.order a.fault
+  let (rr, res) := attempt fs a.v a.proto cs ⟨a.v, a.extra, a.extraStart, a.abandoned, a.lostClose⟩ a.order a.fault
   let c := rr.cfg
   let has (ch : Char) : Bool := a.show_.toList.contains ch
   let r := if has 'r' then showResult res else "*"
@@ -142,7 +146,7 @@ def handleC04 : List String → Option String
   | ["c04.ops", v, r, chunks] => do
     let cs ← c04Chunks chunks
     let v ← c04Variant v
-    let r ← parseBool r
+    let r ← c04Proto r
     let (rr, _) := attempt FS.empty v r cs ⟨v, [], 0, false, false⟩ .sorted none
     pure <| showOps rr.log.reverse
   | _ => none
